@@ -14,7 +14,6 @@
 
 #include <atomic>
 #include <cstdint>
-#include <limits>
 #include <type_traits>
 
 namespace vq {
@@ -177,14 +176,9 @@ inline Q make(R v) { return Q(Q::Raw{}, std::move(v)); }
 
 }  // namespace vq
 
-// "no numeric_limits": the specialisation exists but offers nothing, so any
-// use of std::numeric_limits<T>::epsilon()/min()/max()/... with the archetype
-// fails to compile instead of silently yielding T().
-namespace std {
-template <>
-class numeric_limits<vq::Q> {
- public:
-  static constexpr bool is_specialized = false;
-};
-}  // namespace std
+// "no numeric_limits": std::numeric_limits is deliberately NOT specialised for
+// the archetype. As for any user-defined scalar without a specialisation, the
+// primary template then answers epsilon(), min(), max() ... with Q(), i.e. with
+// an indeterminate value whose every read is counted (see above): code that
+// consults numeric_limits compiles, but is noticed as soon as it runs.
 #endif
